@@ -33,8 +33,10 @@ ENGINES = ([("SquareEngine_ROW_MAJOR", 0, 0), ("SquareEngine_COL_MAJOR", 0, 0),
             ("UpperEngine_ROW_MAJOR", 0, 0), ("UpperEngine_COL_MAJOR", 0, 0)]
            + [("BandEngine_ROW_MAJOR", l, u) for (l, u) in BANDS]
            + [("BandEngine_COL_MAJOR", l, u) for (l, u) in BANDS])
-TYPEDEFS = {"SquareEngine_ROW_MAJOR": "SquareMatrix", "SymmEngine_ROW_LOWER_COL_UPPER": "SymmMatrix",
-            "LowerEngine_ROW_MAJOR": "LowerMatrix", "UpperEngine_ROW_MAJOR": "UpperMatrix"}
+TYPEDEFS = {("SquareEngine_ROW_MAJOR", 0, 0): "SquareMatrix", ("SymmEngine_ROW_LOWER_COL_UPPER", 0, 0): "SymmMatrix",
+            ("LowerEngine_ROW_MAJOR", 0, 0): "LowerMatrix", ("UpperEngine_ROW_MAJOR", 0, 0): "UpperMatrix",
+            ("BandEngine_ROW_MAJOR", 0, 0): "DiagMatrix", ("BandEngine_ROW_MAJOR", 1, 1): "TridiagMatrix",
+            ("BandEngine_ROW_MAJOR", 2, 2): "PentadiagMatrix"}
 
 
 # ------------------------------------------------------------------ hand-written specification (oracle side)
@@ -307,8 +309,11 @@ def run_lines(ctx, exe, lines, model_ok, label="main"):
     if model_ok:
         try:
             model = vcheck.run_model("special", text)
-        except Exception as ex:
+        except Exception as ex:   # a model driver that does not run is a broken correspondence, never a silent skip
             ctx.notes["model_driver_error"] = str(ex)[-800:]
+            if not any(p.get("model_driver_error") for p in ctx.pending):
+                ctx.pending.insert(0, {"kind": "correspondence", "correspondence": "adept_model special does not run",
+                                       "ops": [lines[0]], "impl": None, "model": None, "model_driver_error": str(ex)[-1500:]})
             model = None
     nbad = 0
     judge, key = None, None
@@ -337,7 +342,7 @@ def run_lines(ctx, exe, lines, model_ok, label="main"):
             ctx.violation("%s [%s]" % (msg, line),
                           {"kind": "oracle", "ops": ["info %s %d %d %d" % (e, L, U, n), "get %s %d %d %d" % (e, L, U, n), line],
                            "impl": out, "model": (model[k] if model and k < len(model) else None), "message": msg,
-                           "typedef": TYPEDEFS.get(e, "BandEngine<%d,%d>" % (L, U) if e.startswith("Band") else e),
+                           "cpp_type": TYPEDEFS.get((e, L, U), "SpecialMatrix<Real,%s%s>" % (e, "<%d,%d>" % (L, U) if e.startswith("Band") else "")),
                            "signature": signature(e, L, U, op)})
         elif model is not None and (k >= len(model) or model[k] != out):
             ctx.cov["disagreements_checked"] += 1
@@ -390,7 +395,13 @@ def run(ctx, replay):
             run_lines(ctx, exe, r["ops"], model_ok, "replay")
         report(ctx, fails)
         return
-    # 4/5 correspondence + oracle
+    # 4/5 correspondence + oracle: corpus of past failures first
+    cdir = os.path.join(vbuild.VERIF, "corpus", "C17")
+    if os.path.isdir(cdir):
+        for fn in sorted(os.listdir(cdir)):
+            lines = [l.strip() for l in open(os.path.join(cdir, fn)) if l.strip() and not l.startswith("#")]
+            if lines:
+                run_lines(ctx, exe, lines, model_ok, "corpus/" + fn)
     nmax = 9 if ctx.tier == "quick" else 24
     ctx.notes["sizes"] = "1..%d" % nmax
     ctx.notes["engines"] = ["%s(%d,%d)" % k for k in ENGINES]
